@@ -426,7 +426,7 @@ func rulePanic1(c *Ctx) {
 // ---------------- ENVCHK ----------------
 
 func ruleEnvChk(c *Ctx) {
-	c.R.Rule("ENVCHK", 6, "the compiled closure is called only after envCheck(compile-time env, run-time env) returned nil; envCheck iterates the compile-time env and asserts presence and types.Equals for every name")
+	c.R.Rule("ENVCHK", 4, "the compiled closure is called only after envCheck(compile-time env, run-time env) returned nil; envCheck iterates the compile-time env and asserts presence and types.Equals for every name")
 
 	// ENVCHK-1: Callable literal
 	mk := c.FuncDecl("yae", "Expr.makeCallable")
